@@ -19,11 +19,15 @@ def run(ctx):
     cases = [r for r in rows if len(r) >= 4 and r[1] == "CASE"]
     model = ctx.model("c15", [f"{r[0]}\t{r[2]}" for r in cases]) if cases and os.path.exists(vlib.MODEL) else {}
     n_eq = 0
+    n_pinned = n_stale_links = n_ok_links = 0
+    families = {}
     opcount, outcomes = {}, {}
     distinct = set()
     samples = []
     for r in cases:
         cid, sexp, real_raw = r[0], r[2], vlib.unesc(r[3])
+        fam = ":".join(cid.split(":")[:2]) if cid.startswith("cat:") else "gen"
+        families[fam] = families.get(fam, 0) + 1
         real = strip(real_raw)
         pred = (model.get(cid) or [""])[0].split(" | ")
         ops = ops_of(sexp)
@@ -64,6 +68,46 @@ def run(ctx):
                     ctx.report({"oracle": "altered-artifact", "kind": "core-accepted", "field": t_core[bad[0]]},
                                f"link accepts a core file altered in `{t_core[bad[0]]}`",
                                {"id": cid, "history": sexp, "op_index": i, "op": o, "observed_all": real_raw})
+        # second property oracle, independent of the model: staleness judged from the implementation's OWN
+        # outputs. Every successful check/build prints the identity of the interface hash it wrote, so the
+        # hash each core pinned for each import (what its dependency's interface file said when it was built)
+        # and the hash each core exports are known without any model. A link that succeeds although some
+        # import edge p -> d among its inputs pins another hash than d's core exports (or d is not among the
+        # inputs) violates the property, wherever the edge sits in the graph and whatever the packages are
+        # called. Only histories whose artefacts are never altered by hand (no corrupt-*/foreign-* operation).
+        if not any(o.split()[0] in ("corrupt-iface", "corrupt-core", "foreign-iface") for o in ops):
+            n_pinned += 1
+            iface_h, core_h, pinned = {}, {}, {}
+            for i, (o, res) in enumerate(zip(ops, real)):
+                w = o.split()
+                if w[0] in ("check", "build") and res.startswith("ok"):
+                    hid = res.split()[1]
+                    if w[0] == "build":
+                        pinned[w[1]] = {d: iface_h.get(d) for d in imports.get(w[1], [])}
+                        core_h[w[1]] = hid
+                    iface_h[w[1]] = hid
+                elif w[0] == "link":
+                    ps = w[1:]
+                    if any(p not in core_h for p in ps):
+                        continue
+                    stale_edges = [(p, d) for p in ps for d in imports.get(p, [])
+                                   if d not in ps or pinned[p].get(d) != core_h[d]]
+                    wellformed = len(ps) > 0 and len(set(ps)) == len(ps) and "Main" in ps
+                    if res == "ok" and stale_edges:
+                        p, d = stale_edges[0]
+                        ctx.report({"oracle": "pinned-hash", "kind": "link-accepts-stale-or-missing-dependency"},
+                                   f"link succeeds although {p} was built against interface {pinned[p].get(d)} of {d} and the linked {d} exports "
+                                   f"{core_h.get(d, 'nothing (not among the inputs)')} (hash identities as printed by the builds themselves)",
+                                   {"id": cid, "history": sexp, "op_index": i, "op": o, "stale_import_edges": [f"{a}->{b}" for a, b in stale_edges],
+                                    "pinned": pinned.get(p), "exported_now": {x: core_h.get(x) for x in ps}, "observed_all": real_raw})
+                    elif res.startswith("err stale") or res.startswith("err missing-dep"):
+                        n_stale_links += 1
+                        if wellformed and not stale_edges:
+                            ctx.report({"oracle": "pinned-hash", "kind": "rejects-consistent-set"},
+                                       "link refuses a set of cores as stale although every import edge pins exactly the hash its dependency exports",
+                                       {"id": cid, "history": sexp, "op_index": i, "op": o, "observed_all": real_raw})
+                    if res == "ok":
+                        n_ok_links += 1
         if pred == real:
             n_eq += 1
             continue
@@ -98,16 +142,21 @@ def run(ctx):
     ctx.violations.sort(key=lambda v: len(v[2].get("history", "")))
     cov = {
         "evaluations": len(cases), "distinct_nontrivial": len(distinct),
-        "rule": "one case = one history of edit/check/build/link/corrupt/foreign operations over a 2-3 package DAG executed on the real "
+        "rule": "one case = one history of edit/check/build/link/corrupt/foreign operations over a 2-6 package DAG (7 fixed graphs; every labelled graph over Main + 3 packages; seeded samples over Main + 4 / 5 packages) executed on the real "
                 "check_package/build_package/read_core/link_cores with artefacts as JSON files; non-trivial = contains a link that succeeds "
                 "or a link rejected as stale; distinct by history text",
         "samples": samples, "histories_equal": n_eq, "operations": opcount, "outcomes": outcomes,
         "model_diffs": len(cases) - n_eq, "impl_oracle_failures": len(ctx.violations),
+        "families": families,
+        "pinned_hash_oracle": {"histories_judged": n_pinned, "links_accepted_with_every_edge_current": n_ok_links,
+                               "links_refused_as_stale_or_missing": n_stale_links},
     }
     ctx.assumptions += [
         "H (SHA-256 over serde_json of the hash view) is injective — hypothesis of every theorem, not an axiom",
         "interface-visible edits are drawn from a catalogue of 15 variants of items no dependent uses (signature, field, variant, trait method, impl, item added/removed, return type, inherent impl, and four pairs that differ only in the ORDER of struct fields, enum variants, trait methods, parameter types)",
         "an artefact is corrupted in at most one field between two rewrites",
+        "graphs: 7 fixed ones; every labelled import graph over Main + 3 packages (cat:names: 25 DAGs x 8 import sets of Main, names on both sides of `Main` in sort order) and seeded samples over Main + 4 / + 5 packages (cat:names5/6), each with one edge-sweep history (every import edge q -> p in turn: q the only stale package, link refused; q rebuilt, link accepted; link inputs in dependency / reverse / name order); Main is never imported; beyond Main + 3 the graphs are sampled",
+        "the model-free `pinned-hash` oracle judges staleness from the hash identities printed by the builds themselves, on histories without hand-altered artefacts",
         "version fields are altered in both directions (`format_version`/`compiler_abi`: +1 / +6, and `.older`: the next smaller number) at top level of a core, inside its embedded interface and in an interface file; a consistently re-hashed interface of another version is tried for 7 (format_version, compiler_abi) pairs on either side of the current ones; in the `cat:iface-read` / `cat:foreign` catalogues every direct dependent checks and builds against the altered file before anything rewrites it",
     ]
     tb = ["Lean 4 kernel", "axioms: " + ",".join(ctx.proof["axioms"] or ["none"]),
